@@ -103,6 +103,21 @@ fn compare(dn: &DistinguishedName, m: &Model, types: &[DnType]) -> Result<(), (S
 	if dn != &rb || &rb != dn {
 		return Err(("eq-rebuilt".into(), format!("name != name rebuilt from its own enumeration {:?}", m)));
 	}
+	// equality means equality of the enumeration: the same pairs in another order, or with one value changed, are another name
+	if m.len() >= 2 {
+		let mut rot = m.clone();
+		rot.rotate_left(1);
+		let other = rebuild(&rot);
+		if (dn == &other) != (&rot == m) || (&other == dn) != (&rot == m) {
+			return Err(("eq-permuted".into(), format!("name with enumeration {:?} compares equal to the name with enumeration {:?}", m, rot)));
+		}
+		let mut rev = m.clone();
+		rev.reverse();
+		let other = rebuild(&rev);
+		if (dn == &other) != (&rev == m) {
+			return Err(("eq-permuted".into(), format!("name with enumeration {:?} compares equal to the name with enumeration {:?}", m, rev)));
+		}
+	}
 	Ok(())
 }
 
